@@ -10,10 +10,11 @@ def run(tier, seed):
         ["CacheView_mc.cfg", "CacheView_cyc_mc.cfg", "CacheView_q_gen.cfg" if q else "CacheView_t_gen.cfg", "CacheView_cyc_gen.cfg"],
         [("CacheView_w_error_cached_across_types.cfg", "error_cached_across_types"),
          ("CacheView_w_stream_cache_key_ignores_filters.cfg", "stream_cache_key_ignores_filters"),
-         ("CacheView_w_nested_value_cached.cfg", "nested_value_cached")],
-        actions=["GetAs", "Resolve", "Data", "RawImage", "Image"],
+         ("CacheView_w_nested_value_cached.cfg", "nested_value_cached"),
+         ("CacheView_w_raw_read_through_stream_cache.cfg", "raw_read_through_stream_cache")],
+        actions=["GetAs", "Resolve", "Data", "RawImage", "Image", "RawData"],
         rule="ALL sequences of 3 (quick) / 4 (thorough) calls over {typed get as PagesNode / as Dictionary of 3 objects, resolve, Stream::data, "
-             "raw_image_data, image_data} x {both caches, object cache only, stream cache only, none}; each runs on a generated document (an object "
+             "raw_image_data, image_data, PdfStream::raw_data} x {both caches, object cache only, stream cache only, none}; each runs on a generated document (an object "
              "loadable as two types, one loadable as only one type, one loadable as neither, an image with [ASCIIHex, Flate]); every answer is compared "
              "with the same call alone on a fresh uncached document and with the spec's Uncached; non-trivial = a cache is on and the sequence has >= 2 calls",
         assumptions=["bounded call sequences on one generated document; corpus files are not part of this run",
